@@ -10,6 +10,7 @@ that a failure comes with a concrete input."""
 import json
 import os
 import sys
+import time
 
 sys.path.insert(0, os.path.dirname(os.path.abspath(__file__)))
 import checklib
@@ -123,6 +124,7 @@ def extra(tier, rng, workdir):
         for i in range(nvals):
             r = rng.fork(ti * 1000 + i)
             vals.append({"T": name, "v": cl.gen_value(T[name]["r"], r, pool)})
+    t0 = time.time()
     # 2 real serialisation --------------------------------------------------------------------------
     obs, _ = harness_ops([["ser", x["T"], cl.to_json(x["v"])] for x in vals], workdir, "ser")
     oracle = {}
@@ -156,6 +158,7 @@ def extra(tier, rng, workdir):
         enc_rows.append('("%s", %s, %s, %s)' % (x["T"], cl.otable_coq(used), cl.to_coq(x["v"]), cl.zl(x["real"])))
         enc_idx.append(x)
 
+    vlib.log('C15 ser+pool %.1fs' % (time.time() - t0))
     # 3 decode inputs -------------------------------------------------------------------------------
     inputs = []
     for vi, x in enumerate(vals):
@@ -185,6 +188,7 @@ def extra(tier, rng, workdir):
             continue
         kept.append(it)
     inputs = kept
+    vlib.log('C15 inputs+oracles %.1fs (%d inputs)' % (time.time() - t0, len(inputs)))
     # 4 real deserialisation ------------------------------------------------------------------------
     obs, ex = harness_ops([["de", it["T"], it["bs"].hex()] for it in inputs], workdir, "de", per_case=200)
     dec_rows = []
@@ -212,6 +216,7 @@ def extra(tier, rng, workdir):
         dec_rows.append('("%s", %s, %s, %d, %d, %s)' % (it["T"], cl.otable_coq(p["used"]), cl.zl(it["bs"]), o[0], o[1],
                                                        "Some " + cl.to_coq(it["val"]) if it["val"] is not None else "None"))
 
+    vlib.log('C15 de %.1fs' % (time.time() - t0))
     # 5 streams --------------------------------------------------------------------------------------
     payload_names = [n for n in names if n in codes]
     byT = {}
@@ -270,6 +275,7 @@ def extra(tier, rng, workdir):
         stream_rows.append('(%s, %s, %d, [%s])' % (cl.otable_coq(s["used"]), cl.zl(s["bs"]), cls,
                                                   "; ".join("(%d, %s)" % (c, cl.to_coq(v)) for c, v in real_msgs)))
 
+    vlib.log('C15 streams %.1fs' % (time.time() - t0))
     # 6 model vs implementation inside Coq ------------------------------------------------------------
     r1, e1 = cl.coq_eval(workdir, "enc", "string * otable * value * bytes", enc_rows,
                          "collect (check_enc types) nonzero 0 cases", shard=120)
@@ -277,6 +283,7 @@ def extra(tier, rng, workdir):
                          "collect (check_dec types) nonempty 0 cases", shard=400)
     r3, e3 = cl.coq_eval(workdir, "stream", "otable * bytes * Z * list (Z * value)", stream_rows,
                          "collect (check_stream types payload_for_type) nonzero 0 cases", shard=40)
+    vlib.log('C15 coq %.1fs' % (time.time() - t0))
     for e in e1 + e2 + e3:
         red.append({"what": "model-evaluation", "detail": e})
     for idx, code in r1:
